@@ -14,7 +14,10 @@
 (*   exact2 - the same for the second set of the history (operated on       *)
 (*            directly and used as the argument of set operations on the    *)
 (*            first one, which must not change it)                          *)
-(*   bounds - non-empty set: Min / Max of the set and of its solid are the  *)
+(*   bounds - non-empty set (histories in whole units only: in tenths the   *)
+(*            integers of this module take faces a few 1e-17 apart for one  *)
+(*            plane, and the sliver a removal leaves between them belongs   *)
+(*            to the set): Min / Max of the set and of its solid are the    *)
 (*            bounding box of the cells that remain (no stale planes)       *)
 (***************************************************************************)
 EXTENDS Integers, Sequences, FiniteSets, TLC, Json
@@ -56,7 +59,7 @@ Holds(c) ==
     CASE c = "panic"  -> R.panic = ""
       [] c = "exact"  -> R.panic # "" \/ \A i \in 1..NP : Decided(Probe(i)) => ((i \in Obs) = Den(Probe(i)))
       [] c = "exact2" -> R.panic # "" \/ \A i \in 1..NP : Decided(Probe(i)) => ((i \in Obs2) = Den2(Probe(i)))
-      [] c = "bounds" -> R.panic # "" \/ DenSet = {} \/
+      [] c = "bounds" -> R.panic # "" \/ R.nobounds \/ DenSet = {} \/
                            (R.bexact /\ \A a \in 1..3 : /\ R.smin[a] = Lo(a) /\ R.smax[a] = Hi(a)
                                                         /\ R.bmin[a] = Lo(a) /\ R.bmax[a] = Hi(a))
       [] OTHER -> TRUE
